@@ -287,8 +287,10 @@ def r14_zone_pair(ctx):
         key = ctx.fkey(f, r, "path")
         v = r.value
         if isinstance(v, ast.Name) and v.id == selfn:
-            p = parent(r)
-            ok = isinstance(p, ast.If) and U(p.test) == "%s._unknown" % dest
+            from ..flow import path_conds
+            ok = any(pol and U(t) in ("%s._unknown" % dest,
+                                      "%s.unknown" % dest)
+                     for t, pol in path_conds(r))
             rep.check(ok, rule, key, f.loc(r),
                       "receiver returned unchanged only for an unknown "
                       "destination zone",
